@@ -37,6 +37,7 @@ type dumpCache interface {
 	restore(r *bytes.Buffer) (int, error)
 	read(key []byte) (interface{}, error)
 	wdr() cache.WalkDumpRestorer
+	deleteAll()
 	close()
 }
 
@@ -66,6 +67,7 @@ func (p plainDump) read(key []byte) (interface{}, error) {
 	return r.Val, r.Err
 }
 func (p plainDump) close()                      { p.be.Close() }
+func (p plainDump) deleteAll()                  { p.be.DeleteAll(bg) }
 func (p plainDump) wdr() cache.WalkDumpRestorer { return p.be.Raw().(cache.WalkDumpRestorer) }
 
 type ofDump[V any] struct {
@@ -93,6 +95,7 @@ func (o ofDump[V]) dump(w *bytes.Buffer) (int, error)    { return o.c.Dump(w) }
 func (o ofDump[V]) restore(r *bytes.Buffer) (int, error) { return o.c.Restore(r) }
 func (o ofDump[V]) read(key []byte) (interface{}, error) { return o.c.Read(bg, key) }
 func (o ofDump[V]) close()                               { o.c.VerifClose() }
+func (o ofDump[V]) deleteAll()                           { o.c.DeleteAll(bg) }
 func (o ofDump[V]) wdr() cache.WalkDumpRestorer          { return o.c.WalkDumpRestorer() }
 
 var dumpCfg = cache.Config{
@@ -330,6 +333,22 @@ func fillAndTransfer(c *Case, chain []string, transfer func(src, dst dumpCache, 
 
 	for h := 1; h < len(chain); h++ {
 		dst := newDumpCacheCfg(c, chain[h], drawTargetCfg(c))
+
+		// "an empty cache" may also be one that was used and emptied before
+		if c.Weighted("target-history", 3, 1) == 1 {
+			for i := 0; i < 5; i++ {
+				v, _ := drawValue(c, chain[h], i)
+				dst.put([]byte(fmt.Sprintf("old-%d", i)), v, 0)
+			}
+
+			for i := 0; i < len(want) && i < 3; i++ {
+				v, _ := drawValue(c, chain[h], i)
+				dst.put([]byte(want[i].key), v, time.Minute)
+			}
+
+			dst.deleteAll()
+			c.Class("target-emptied-by-DeleteAll")
+		}
 
 		if transfer != nil {
 			transfer(cur, dst, n)
